@@ -865,6 +865,13 @@ func c13Run(c core.Case, env *core.Env) core.Result {
 			if err != nil {
 				return nil, nil, fmt.Errorf("BobMid: %w", err)
 			}
+			if cAatBob == cA {
+				// Bob may look at Alice's one round-1 message more than once (both MtA variants, a retry): the parsed
+				// proof object must still verify
+				if _, _, _, _, err2 := mta.BobMid(sess, ec, pkA, pf, b, cAatBob, A.NTildei, A.H1i, A.H2i, B.NTildei, B.H1i, B.H2i, rand.Reader); err2 != nil {
+					return nil, nil, fmt.Errorf("BobMid on the same proof object a second time: %w", err2)
+				}
+			}
 			cBatAlice := tamper("cB", cB)
 			al, err := mta.AliceEnd(sess, ec, pkA, piB, A.H1i, A.H2i, cA, cBatAlice, A.NTildei, skA)
 			if err != nil {
